@@ -202,6 +202,123 @@ def coq_dict(pairs) -> str:
     return H.coq_list(f"({H.coq_text(k)}, {coq_jv(v)})" for k, v in pairs)
 
 
+
+# ---------------------------------------------------------------------------
+# save options, changes of the folder after the scan, reading a saved file
+# ---------------------------------------------------------------------------
+#: custom maps that respect the side condition of save (short keys do not clash with the mapper's keys)
+CUSTOM = {"key_map": {"n": "q", "m": "t", "data_id": "i"}, "value_map": {"d": [True]}}
+
+
+def save_kwargs(sopts):
+    """keyword arguments for save() and the caller-owned objects among them (handed in as ONE object for all calls)"""
+    kw, owned = {}, {}
+    for opt in ("key_map", "value_map"):
+        v = sopts.get(opt, "default")
+        if v == "default":
+            continue
+        if v == "custom":
+            owned[opt] = json.loads(json.dumps(CUSTOM[opt]))
+            kw[opt] = owned[opt]
+        else:
+            kw[opt] = bool(v)
+    if sopts.get("meta"):
+        owned["meta"] = {"note": "c19"}
+        kw["meta"] = owned["meta"]
+    return kw, owned
+
+
+def read_saved(target, how):
+    if how == "zip":
+        import zipfile
+
+        with zipfile.ZipFile(target) as zf:
+            return zf.read(zf.namelist()[0]).decode("utf8")
+    return Path(target).read_text(encoding="utf8")
+
+
+def logical_nodes(nodes, meta):
+    """the node entries with the announced key / value maps undone (an independent reading of the file format):
+    identical to the raw entries when no map is announced"""
+    inv = {v: k for k, v in (meta.get("$key_map") or [])}
+    vm = {k: v for k, v in (meta.get("$value_map") or [])}
+    out = []
+    for p, d in nodes:
+        pairs = []
+        for k, v in d:
+            lk = inv.get(k, k)
+            if lk in vm and type(v) is int:
+                v = vm[lk][v]
+            pairs.append((lk, v))
+        if inv:
+            # renaming a key moves it to the end of the dict (`data[short] = data.pop(key)`); the order of the keys of a
+            # JSON object carries no information, so with an announced key map the entry is read in the mapper's order
+            order = {"n": 0, "d": 1, "s": 2, "m": 3}
+            pairs.sort(key=lambda kv: order.get(kv[0], 9))
+        out.append((p, pairs))
+    return out
+
+
+def disturb(root, listing, mode):
+    """change the folder after it was scanned; returns the abstract value of the folder afterwards (None: gone)"""
+    if mode == "none":
+        return listing
+    if mode == "remove":
+        shutil.rmtree(root)
+        return None
+
+    def go(dirpath, lst):
+        out = []
+        for ent in lst:
+            p = os.path.join(dirpath, ent[1])
+            if ent[0] == "f":
+                size = ent[2] + 3 if mode in ("rewrite", "mixed") else ent[2]
+                mt = [ent[3][0] + 12345, ent[3][1]]
+                if mode in ("rewrite", "mixed"):
+                    with open(p, "wb") as fp:
+                        fp.write(b"y" * size)
+                ns = mt[0] * 1_000_000_000 + mt[1] * 125_000_000
+                os.utime(p, ns=(ns, ns))
+                out.append(["f", ent[1], size, mt])
+            elif ent[0] == "d":
+                out.append(["d", ent[1], go(p, ent[2])])
+            else:
+                out.append(ent)
+        if mode == "mixed":                 # ... and a new file appears in every folder
+            nm = "zz-new-c19"
+            with open(os.path.join(dirpath, nm), "wb") as fp:
+                fp.write(b"n")
+            os.utime(os.path.join(dirpath, nm), ns=(10 ** 9, 10 ** 9))
+            out.append(["f", nm, 1, [1, 0]])
+        return out
+
+    return go(root, listing)
+
+
+def expected_walk(dirpath, listing):
+    """(name, is_dir, size, mtime ratio, sub) of the regular entries in os.scandir order, cross-checked against what
+    the harness created."""
+    by = {e[1]: e for e in listing}
+    out = []
+    with os.scandir(dirpath) as it:
+        ents = list(it)
+    if sorted(e.name for e in ents) != sorted(by):
+        raise RuntimeError("environment: scandir does not show what was created")
+    for de in ents:
+        g = by[de.name]
+        if de.is_dir():
+            assert g[0] == "d"
+            out.append((de.name, True, None, None, expected_walk(de.path, g[2])))
+        elif de.is_file():
+            assert g[0] == "f"
+            st = de.stat()
+            assert st.st_size == g[2] and st.st_mtime_ns == g[3][0] * 10 ** 9 + g[3][1] * 125_000_000
+            out.append((de.name, False, g[2], tuple(mt_ratio(g[3])), None))
+        else:
+            assert g[0] == "o"
+    return out
+
+
 # ---------------------------------------------------------------------------
 class Prop:
     id = "C19"
@@ -217,7 +334,11 @@ class Prop:
             "accents, astral vs BMP code points, names that are not valid UTF-8, control characters, long common prefixes), sizes "
             "0..5000 bytes, mtimes in 1/8 s set by os.utime(ns=); each case = load_tree_from_fs (str or Path argument) + save to a "
             "real file (path / stream / zip / explicit mappers) + FileSystemTree.load; for sort=False the model receives the listing "
-            "order observed with os.listdir, for sort=True the (shuffled) creation order; separate cases for the FileSystemEntry "
+            "order observed with os.listdir, for sort=True the (shuffled) creation order; AFTER the scan and before the tree is first "
+            "read the folder is changed (files rewritten / touched / new files / everything removed): the tree, the saved file and "
+            "the re-loaded tree must be the folder AS SCANNED, a second scan the folder as it is then; save() is called with every "
+            "explicit option value (key_map, value_map in {omitted, True, False, custom}, meta) twice with the same caller-owned "
+            "objects (snapshotted), load() twice with one file_meta dict, the tree is read again afterwards; separate cases for the FileSystemEntry "
             "constructor and the two mappers on arbitrary arguments.  distinct = distinct (sort, directory value); "
             "non-trivial = some folder holds >= 2 entries (or a mapper case)")
     exhaustive_note = "all forest shapes <= N entries (N=4 quick) x every file/folder labelling of the leaves x sort on/off"
@@ -312,6 +433,15 @@ class Prop:
                 out.append(self._leaf(rng, n, 2))
         return out
 
+    def _variant(self, rng):
+        """what happens to the folder after the scan, and the option values save() is called with"""
+        opt = lambda: rng.choice(["default", "default", True, True, False, "custom", "custom"])  # noqa: E731
+        so = dict(key_map=opt(), value_map=opt())
+        if rng.random() < 0.2:
+            so["meta"] = True
+        return dict(after=rng.choice(["none", "none", "none", "rewrite", "rewrite", "touch", "mixed", "remove"]),
+                    save_opts=so, rescan=rng.random() < 0.25)
+
     def descs(self, tier, rng):
         yield from CORPUS
         nmax = 4 if tier == "quick" else 6
@@ -326,7 +456,7 @@ class Prop:
                     lab = [2 if (b == 0 and rng.random() < 0.06) else b for b in lab]
                     tree = self._from_shape(rng, shape, list(lab))
                     for sort in (True, False):
-                        yield dict(kind="load", sort=sort, tree=tree, how=rng.choice(HOWS))
+                        yield dict(kind="load", sort=sort, tree=tree, how=rng.choice(HOWS), **self._variant(rng))
         nrand = 220 if tier == "quick" else 2000
         for i in range(nrand):
             n = rng.choice([3, 5, 8, 12, 18, 25, 40])
@@ -335,14 +465,14 @@ class Prop:
                 shape = tuple((tuple(() for _ in range(rng.randint(0, 3))) if rng.random() < 0.2 else ()) for _ in range(min(n, 16)))
             elif r < 0.3:
                 tree = self._random_dir(rng, [n], 1)
-                yield dict(kind="load", sort=rng.random() < 0.6, tree=tree, how=rng.choice(HOWS))
+                yield dict(kind="load", sort=rng.random() < 0.6, tree=tree, how=rng.choice(HOWS), **self._variant(rng))
                 continue
             else:
                 shape = H.random_shape(rng, n, deep=rng.choice([0.15, 0.4, 0.7]))
             nl = sum(1 for _ in _leaves(shape))
             labels = [rng.choice([0, 0, 0, 0, 1, 1, 2]) if rng.random() < 0.9 else 0 for _ in range(nl)]
             tree = self._from_shape(rng, shape, labels)
-            yield dict(kind="load", sort=rng.random() < 0.6, tree=tree, how=rng.choice(HOWS))
+            yield dict(kind="load", sort=rng.random() < 0.6, tree=tree, how=rng.choice(HOWS), **self._variant(rng))
         # FileSystemEntry constructor + mappers on arbitrary arguments
         nent = 120 if tier == "quick" else 1200
         for _ in range(nent):
@@ -418,6 +548,14 @@ class Prop:
 
         for t in drops(desc["tree"]):
             yield dict(desc, tree=t)
+        if desc.get("how", "path") != "path":
+            yield dict(desc, how="path")
+        so = desc.get("save_opts") or {}
+        for k in ("meta", "value_map", "key_map"):
+            if so.get(k, "default") != "default":
+                yield dict(desc, save_opts={kk: vv for kk, vv in so.items() if kk != k})
+        if desc.get("after", "none") != "none":
+            yield dict(desc, after="none")
 
     # ----- one case ----------------------------------------------------
     def run(self, desc) -> Case:
@@ -525,14 +663,20 @@ class Prop:
                     key=H.digest(desc), stats=dict(kind=desc["kind"], n=len(items), dup=len({n for n, _ in items}) < len(items)))
 
     def run_load(self, desc) -> Case:
+        """scan -> (the folder changes: files rewritten / touched / everything removed) -> observe the tree -> save with the
+        requested option values (twice, with the SAME caller-owned option objects) -> load (twice, one file_meta dict) ->
+        observe the tree again -> scan the changed folder again."""
         sort = bool(desc["sort"])
         how = desc.get("how", "path")
+        after = desc.get("after", "none")
+        sopts = desc.get("save_opts") or {}
         base = tempfile.mkdtemp(prefix="c19_")
         try:
             root = os.path.join(base, "root")
             os.mkdir(root)
             build_dir(root, desc["tree"])
             seen = observed_order(root, desc["tree"])
+            exp = expected_walk(root, desc["tree"])          # the directory AS SCANNED (before anything changes)
             arg = root
             cwd = os.getcwd()
             try:
@@ -552,91 +696,101 @@ class Prop:
                 os.chdir(cwd)
             if observed_order(root, desc["tree"]) != seen:
                 raise RuntimeError("environment: listing order changed during the scan")
+            model_listing = desc["tree"] if sort else seen
+            coq = f"(CLoad {H.coq_bool(sort)} {coq_root(arg)} {H.coq_list(coq_fsn(e) for e in model_listing)})"
             if tree is None:
-                return Case(desc=desc, coq_input=f"(CLoad {H.coq_bool(sort)} {coq_root(root)} {H.coq_list(coq_fsn(e) for e in seen)})",
-                            impl_obs=[-1], oracle_fail="load-raises: " + load_err, nontrivial=True,
-                            key=H.digest([sort, desc["tree"]]), stats=dict(kind="load", sort=sort, raised=True))
-            o_tree = obs_tree(tree)
+                return Case(desc=desc, coq_input=coq, impl_obs=[-1], oracle_fail="load-raises: " + load_err, nontrivial=True,
+                            key=H.digest([sort, desc["tree"], after, sopts]), stats=dict(kind="load", sort=sort, raised=True))
+
+            # the folder changes AFTER the scan returned and BEFORE the tree is looked at for the first time
+            tree_after = disturb(root, desc["tree"], after)
+
+            obs_err = None
+            try:
+                o_tree = obs_tree(tree)
+            except Exception as e:  # noqa: BLE001
+                o_tree = [-1]
+                obs_err = f"{type(e).__name__}: {e}"
 
             # save to a real file OUTSIDE the scanned folder, read the raw node list, load it back
             target = os.path.join(base, "saved.json")
+            target2 = os.path.join(base, "saved2.json")
             err = None
             o_nodes, o_back = [], []
+            meta, tree2, extra = {}, None, None
+            kw, owned = save_kwargs(sopts)
+            snap = json.dumps(owned, sort_keys=True, default=str)
             try:
                 if how == "explicit":
-                    tree.save(target, mapper=tree.serialize_mapper)
+                    kw["mapper"] = tree.serialize_mapper
                 elif how == "zip":
-                    tree.save(target, compression=True)
-                elif how == "stream":
+                    kw["compression"] = True
+                if how == "stream":
                     with open(target, "w", encoding="utf8") as fp:
-                        tree.save(fp)
+                        tree.save(fp, **kw)
+                    with open(target2, "w", encoding="utf8") as fp:
+                        tree.save(fp, **kw)
                 else:
-                    tree.save(target)
-                if how == "zip":
-                    import zipfile
-
-                    with zipfile.ZipFile(target) as zf:
-                        raw = zf.read(zf.namelist()[0]).decode("utf8")
-                else:
-                    raw = Path(target).read_text(encoding="utf8")
-                doc = json.loads(raw, object_pairs_hook=lambda ps: ps)
-                doc = dict(doc)
+                    tree.save(target, **kw)
+                    tree.save(target2, **kw)              # again, with the same option objects
+                raw, raw2 = read_saved(target, how), read_saved(target2, how)
+                doc = dict(json.loads(raw, object_pairs_hook=lambda ps: ps))
                 meta = dict(doc["meta"])
-                o_nodes = [[p, obs_dict(d)] for p, d in doc["nodes"]]
+                o_nodes = [[p, obs_dict(d)] for p, d in logical_nodes(doc["nodes"], meta)]
+                file_meta: dict = {}
+                lkw = dict(file_meta=file_meta)
                 if how == "explicit":
-                    tree2 = FileSystemTree.load(target, mapper=tree.deserialize_mapper)
-                elif how == "stream":
+                    lkw["mapper"] = tree.deserialize_mapper
+                if how == "stream":
                     with open(target, encoding="utf8") as fp:
-                        tree2 = FileSystemTree.load(fp)
+                        tree2 = FileSystemTree.load(fp, **lkw)
+                    with open(target2, encoding="utf8") as fp:
+                        tree2b = FileSystemTree.load(fp, **lkw)
                 else:
-                    tree2 = FileSystemTree.load(target)
+                    tree2 = FileSystemTree.load(target, **lkw)
+                    tree2b = FileSystemTree.load(target2, **lkw)   # the same file_meta dict again
                 o_back = [obs_tree(tree2)]
+                if raw2 != raw:
+                    extra = "save-twice: the second save() with the same arguments wrote a different file"
+                elif obs_tree(tree2b) != o_back[0]:
+                    extra = "load-twice: the second load() (same file_meta dict) built a different tree"
+                elif json.dumps(owned, sort_keys=True, default=str) != snap:
+                    extra = f"caller-args: save() changed the caller's option objects: {owned!r}"
+                elif obs_err is None and obs_tree(tree) != o_tree:
+                    extra = "tree-changed: the scanned tree reads differently after save/load"
             except Exception as e:  # noqa: BLE001
                 err = f"{type(e).__name__}: {e}"
-                meta = {}
                 tree2 = None
             obs = [o_tree, o_nodes, o_back]
-            fail = self.oracle_load(desc, root, tree, tree2, meta, err, sort)
+            fail = ("observe-raises: reading the scanned tree " + obs_err) if obs_err else None
+            fail = fail or self.oracle_load(desc, exp, tree, tree2, meta, err, sort, sopts)
+            fail = fail or extra
             nm = str(tree.name)
             if not fail and nm != str(Path(arg)):
                 fail = f"tree-name: {nm!r} is not the scanned path"
+            # a second scan sees the folder as it is NOW
+            if not fail and tree_after is not None and (after != "none" or desc.get("rescan")):
+                try:
+                    tree3 = load_tree_from_fs(root, sort=sort)
+                    fail = self.check_tree(tree3, expected_walk(root, tree_after), sort)
+                    if fail:
+                        fail = "rescan: " + fail
+                except Exception as e:  # noqa: BLE001
+                    fail = f"rescan-raises: {type(e).__name__}: {e}"
         finally:
             shutil.rmtree(base, ignore_errors=True)
-        model_listing = desc["tree"] if sort else seen
-        coq = f"(CLoad {H.coq_bool(sort)} {coq_root(arg)} {H.coq_list(coq_fsn(e) for e in model_listing)})"
         fsz = [len(f) for f in folders(desc["tree"])]
         mixed = any(len({e[0] for e in f if e[0] != "o"}) == 2 for f in folders(desc["tree"]))
         return Case(desc=desc, coq_input=coq, impl_obs=obs, oracle_fail=fail,
-                    nontrivial=max(fsz) >= 2, key=H.digest([sort, desc["tree"]]),
+                    nontrivial=max(fsz) >= 2, key=H.digest([sort, desc["tree"], after, sopts]),
                     stats=dict(kind="load", sort=sort, entries=min(count(desc["tree"]), 41) // 5 * 5, depth=depth(desc["tree"]),
                                max_folder=min(max(fsz), 8), special=count(desc["tree"], "o") > 0,
-                               mixed_folder=mixed, how=how))
+                               mixed_folder=mixed, how=how, after=after,
+                               key_map=str(sopts.get("key_map", "default")), value_map=str(sopts.get("value_map", "default"))))
 
     # the property statement, executed on the real directory and the real trees
-    def oracle_load(self, desc, root, tree, tree2, meta, err, sort):
-        def expected(dirpath, listing):
-            """(name, is_dir, size, mtime ratio, sub) of the regular entries in os.scandir order, cross-checked
-            against what the harness created."""
-            by = {e[1]: e for e in listing}
-            out = []
-            with os.scandir(dirpath) as it:
-                ents = list(it)
-            if sorted(e.name for e in ents) != sorted(by):
-                raise RuntimeError("environment: scandir does not show what was created")
-            for de in ents:
-                g = by[de.name]
-                if de.is_dir():
-                    assert g[0] == "d"
-                    out.append((de.name, True, None, None, expected(de.path, g[2])))
-                elif de.is_file():
-                    assert g[0] == "f"
-                    st = de.stat()
-                    assert st.st_size == g[2] and st.st_mtime_ns == g[3][0] * 10 ** 9 + g[3][1] * 125_000_000
-                    out.append((de.name, False, g[2], tuple(mt_ratio(g[3])), None))
-                else:
-                    assert g[0] == "o"
-            return out
-
+    def check_tree(self, tree, exp, sort):
+        """one node per regular entry of every folder, with its name / flag / size / mtime, in the required order"""
         def check(nodes, exp, where):
             # one node per regular entry of this folder
             got = []
@@ -679,8 +833,10 @@ class Prop:
                         return r
             return None
 
-        exp = expected(root, desc["tree"])
-        r = check(tree.children, exp, "")
+        return check(tree.children, exp, "")
+
+    def oracle_load(self, desc, exp, tree, tree2, meta, err, sort, sopts):
+        r = self.check_tree(tree, exp, sort)
         if r:
             return r
         nreg = count(desc["tree"], "f") + count(desc["tree"], "d")
@@ -688,8 +844,15 @@ class Prop:
             return f"count: len(tree)={len(tree)} for {nreg} files and folders"
         if err:
             return f"save-load-raises: {err}"
-        if "$key_map" in meta or "$value_map" in meta:
-            return f"save-meta: FileSystemTree.save wrote key/value maps {meta!r} (would turn 's' into 'str' on load)"
+        # the header announces exactly the maps that were asked for: none for default / True / False (the class default
+        # of a FileSystemTree is "no map": the mapper's own keys 'n' 's' 'm' 'd' must not be renamed on load)
+        for opt, hk in (("key_map", "$key_map"), ("value_map", "$value_map")):
+            want = sopts.get(opt, "default")
+            want = CUSTOM[opt] if want == "custom" else None
+            got = meta.get(hk)
+            got = None if got is None else json.loads(json.dumps(dict(got) if opt == "key_map" else {k: v for k, v in got}))
+            if got != want:
+                return f"save-meta: save({opt}={sopts.get(opt, 'default')!r}) announces {hk}={got!r}, expected {want!r}"
 
         def same(a, b, where):
             if len(a) != len(b):
@@ -795,6 +958,17 @@ CORPUS = [
     # empty root; a folder with only special files
     dict(kind="load", sort=True, how="path", tree=[]),
     dict(kind="load", sort=True, how="path", tree=[["o", "p", "fifo"], ["d", "d", [["o", "l", "dangling"]]], ["f", "f", 0, [0, 0]]]),
+    # the folder changes after the scan and before the tree is read / saved: the tree is the folder AS SCANNED
+    dict(kind="load", sort=True, how="path", after="rewrite", tree=[["f", "a.txt", 5, [1_000_000_000, 0]], ["d", "d", [["f", "b", 0, [1, 4]]]]]),
+    dict(kind="load", sort=False, how="stream", after="touch", tree=[["f", "a.txt", 5, [1_000_000_000, 0]], ["f", "b", 2, [7, 0]]]),
+    dict(kind="load", sort=True, how="zip", after="remove", tree=[["f", "a.txt", 5, [1_000_000_000, 0]], ["d", "d", [["f", "b", 0, [1, 4]]]]]),
+    dict(kind="load", sort=True, how="path", after="mixed", rescan=True, tree=[["d", "d", [["f", "b", 1, [1, 0]]]], ["f", "c", 0, [0, 0]]]),
+    # every explicit value of the save options
+    dict(kind="load", sort=True, how="path", save_opts=dict(key_map=True), tree=[["f", "a", 1, [1, 0]], ["d", "d", []]]),
+    dict(kind="load", sort=True, how="path", save_opts=dict(key_map=True, value_map=True, meta=True), tree=[["f", "a", 1, [1, 0]]]),
+    dict(kind="load", sort=True, how="stream", save_opts=dict(key_map=False, value_map=False), tree=[["f", "a", 1, [1, 0]], ["d", "d", []]]),
+    dict(kind="load", sort=False, how="zip", save_opts=dict(key_map="custom", value_map="custom"), tree=[["f", "a", 1, [1, 0]], ["d", "d", [["f", "s", 0, [0, 0]]]]]),
+    dict(kind="load", sort=True, how="explicit", save_opts=dict(key_map="custom", value_map=True), tree=[["d", "d", []], ["f", "m", 3, [2, 1]]]),
     # code point order vs UTF-16 order
     dict(kind="load", sort=True, how="zip", tree=[["f", "a\U00010000", 1, [1, 0]], ["f", "a\uffff", 1, [1, 0]],
                                                   ["d", "a\U00010000d", []], ["d", "a\uffffd", []]]),
